@@ -1952,6 +1952,104 @@ Section Proofs.
     induction (st_tfcols K s) as [|c r IH]; cbn; auto.
     rewrite (registered_has_priority s c) by (apply H; cbn; auto). cbn. f_equal. apply IH. intros c' Hin. apply H. cbn. auto.
   Qed.
+  (* ================================================================ the fresh linker of Model/Cache.v [fresh_of] *)
+  Lemma fold_aset_spec {A V} (kf : A -> pname) (vf : A -> V) l : forall d0 k,
+    aget (fold_left (fun d a => aset d (kf a) (vf a)) l d0) k =
+    match find (fun a => pname_eqb (kf a) k) (rev l) with Some a => Some (vf a) | None => aget d0 k end.
+  Proof.
+    induction l as [|a r IH] using rev_ind; intros d0 k; [reflexivity|].
+    rewrite fold_left_app, rev_app_distr. cbn [fold_left rev app find]. rewrite aget_aset.
+    destruct (pname_eqb (kf a) k); auto.
+  Qed.
+
+  Lemma in_lookups s c v : In (c, v) (lookups K keqb s) <-> In c (st_tfcols K s) /\ lookup_of s c = Some v.
+  Proof.
+    unfold lookups, lookup_of. rewrite in_flat_map. split.
+    - intros (c' & Hin & H). destruct (aget (st_cache K s) (named (tfname c'))) eqn:E; [|destruct H].
+      destruct (is_hashed K (h_phys K h)) eqn:Eh; [destruct H|]. destruct H as [H|[]]. inversion H; subst.
+      rewrite E, Eh. auto.
+    - intros (Hin & H). exists c. split; auto. destruct (aget (st_cache K s) (named (tfname c))); [|discriminate].
+      destruct (is_hashed K (h_phys K h)); [discriminate|]. inversion H. left. reflexivity.
+  Qed.
+
+  Lemma find_lookup_key s (l' : nat) c (kf : string * prov -> pname) :
+    (forall cv cv', kf cv = kf cv' -> fst cv = fst cv') -> (forall cv, fst cv = c -> pname_eqb (kf cv) (kf (c, PMissing)) = true) ->
+    (forall cv, fst cv <> c -> pname_eqb (kf cv) (kf (c, PMissing)) = false) ->
+    In c (st_tfcols K s) ->
+    find (fun cv => pname_eqb (kf cv) (kf (c, PMissing))) (rev (lookups K keqb s)) =
+    match lookup_of s c with Some v => Some (c, v) | None => None end.
+  Proof.
+    intros _ Hyes Hno Hin. destruct (lookup_of s c) as [v|] eqn:E.
+    - destruct (find _ (rev (lookups K keqb s))) as [[c' v']|] eqn:Ef.
+      + apply find_some in Ef. destruct Ef as [Hi He]. apply in_rev in Hi.
+        destruct (string_dec c' c) as [->|Hne]; [|rewrite (Hno (c', v')) in He; auto; discriminate].
+        apply in_lookups in Hi. destruct Hi as [_ Hi]. rewrite E in Hi. inversion Hi. reflexivity.
+      + assert (Hi : In (c, v) (rev (lookups K keqb s))) by (apply in_rev; rewrite rev_involutive; apply in_lookups; auto).
+        pose proof (find_none _ _ Ef _ Hi) as X. cbn in X. rewrite (Hyes (c, v)) in X; auto. discriminate.
+    - destruct (find _ (rev (lookups K keqb s))) as [[c' v']|] eqn:Ef; auto.
+      apply find_some in Ef. destruct Ef as [Hi He]. apply in_rev in Hi.
+      destruct (string_dec c' c) as [->|Hne]; [|rewrite (Hno (c', v')) in He; auto; discriminate].
+      apply in_lookups in Hi. destruct Hi as [_ Hi]. rewrite E in Hi. discriminate.
+  Qed.
+
+  Lemma aget_filter_key {V} (f : pname -> bool) (l : list (pname * V)) k :
+    aget (filter (fun kv => f (fst kv)) l) k = if f k then aget l k else None.
+  Proof.
+    induction l as [|[k' v] r IH]; cbn; [destruct (f k); auto|].
+    destruct (f k') eqn:Ef; cbn; destruct (pname_eqb k' k) eqn:E; auto.
+    - apply pname_eqb_spec in E. subst. rewrite Ef. auto.
+    - apply pname_eqb_spec in E. subst. rewrite IH, Ef. auto.
+  Qed.
+
+  (* the fresh linker of the model observes the same input rows, model and registered lookups as the state it is built from *)
+  Theorem obs_fresh_of s u l : inputs_plain (st_inputs K s) -> obs (fresh_of K keqb s u l) = obs s.
+  Proof.
+    intros Hp. unfold obs, fresh_of. cbn [st_db st_cache st_inputs st_tfcols st_params].
+    set (leaves0 := filter (fun kv => existsb (fun l0 => pname_eqb (PL l0) (fst kv)) (st_inputs K s)) (st_db K s)).
+    set (kd := fun cv : string * prov => PL (LUid (tfname (fst cv)) l)).
+    set (kc := fun cv : string * prov => named (tfname (fst cv))).
+    assert (A1 : map (fun l0 => content (fold_left (fun d cv => aset d (kd cv) {| e_prov := snd cv; e_origin := Caller |})
+                                                    (lookups K keqb s) leaves0) (PL l0)) (st_inputs K s)
+                 = map (fun l0 => content (st_db K s) (PL l0)) (st_inputs K s)).
+    { apply map_ext_in. intros l0 Hin. unfold Cache.content. rewrite fold_aset_spec.
+      destruct (find _ (rev (lookups K keqb s))) as [[c v]|] eqn:Ef.
+      - apply find_some in Ef. destruct Ef as [_ He]. unfold kd in He. cbn in He. destruct (Hp _ Hin) as [n ->]. cbn in He. discriminate.
+      - unfold leaves0. rewrite (aget_filter_key (fun k => existsb (fun l1 => pname_eqb (PL l1) k) (st_inputs K s))).
+        assert (X : existsb (fun l1 => pname_eqb (PL l1) (PL l0)) (st_inputs K s) = true)
+          by (apply existsb_exists; exists l0; split; auto; apply pname_eqb_refl).
+        rewrite X. reflexivity. }
+    assert (A2 : map (fun c => lookup_of (fresh_of K keqb s u l) c) (st_tfcols K s) = map (lookup_of s) (st_tfcols K s)).
+    { apply map_ext_in. intros c Hin. unfold lookup_of at 1. unfold fresh_of. cbn [st_cache st_db].
+      fold leaves0. fold kd.
+      change (fold_left (fun c0 cv => aset c0 (named (tfname (fst cv)))
+                 {| h_templ := tfname (fst cv); h_phys := PL (LUid (tfname (fst cv)) l); h_src := Leaf (LUid (tfname (fst cv)) l); h_cbs := false |})
+               (lookups K keqb s) [])
+        with (fold_left (fun c0 cv => aset c0 (kc cv)
+                 {| h_templ := tfname (fst cv); h_phys := kd cv; h_src := Leaf (LUid (tfname (fst cv)) l); h_cbs := false |})
+               (lookups K keqb s) []).
+      rewrite fold_aset_spec.
+      assert (F1 : find (fun cv => pname_eqb (kc cv) (named (tfname c))) (rev (lookups K keqb s)) =
+                   match lookup_of s c with Some v => Some (c, v) | None => None end).
+      { apply (find_lookup_key s l c kc); auto.
+        - intros cv cv' H. unfold kc in H. apply named_inj in H. apply tfname_inj in H. auto.
+        - intros cv <-. unfold kc. apply pname_eqb_refl.
+        - intros cv Hne. unfold kc. apply pname_eqb_neq. intros H. apply named_inj in H. apply tfname_inj in H. auto. }
+      change (named (tfname c)) with (kc (c, PMissing)) at 1. unfold kc at 2. cbn [fst]. rewrite F1.
+      destruct (lookup_of s c) as [v|] eqn:E; [|reflexivity]. cbn [h_phys is_hashed kd fst]. f_equal.
+      unfold Cache.content. rewrite fold_aset_spec.
+      assert (F2 : find (fun cv => pname_eqb (kd cv) (kd (c, PMissing))) (rev (lookups K keqb s)) =
+                   match lookup_of s c with Some v => Some (c, v) | None => None end).
+      { apply (find_lookup_key s l c kd); auto.
+        - intros cv cv' H. unfold kd in H. assert (X : tfname (fst cv) = tfname (fst cv')) by congruence. apply tfname_inj in X. auto.
+        - intros cv <-. unfold kd. apply pname_eqb_refl.
+        - intros cv Hne. unfold kd. apply pname_eqb_neq. intros H. assert (X : tfname (fst cv) = tfname c) by (cbn in H; congruence). apply tfname_inj in X. auto. }
+      pose proof (F2 : find (fun a : string * prov => pname_eqb (PL (LUid (tfname (fst a)) l)) (kd (c, v))) (rev (lookups K keqb s))
+                       = match lookup_of s c with Some v0 => Some (c, v0) | None => None end) as F3.
+      rewrite F3, E. reflexivity. }
+    change (lookup_of {| st_db := _; st_cache := _; st_inputs := _; st_tfcols := _; st_params := _; st_uid := _; st_luid := _;
+                         st_ctr := _; st_debug := _; st_fix := _ |}) with (lookup_of (fresh_of K keqb s u l)).
+    fold leaves0. fold kd. rewrite A1, A2. reflexivity.
+  Qed.
 End Proofs.
 
 (* ------------------------------------------------------------------ realtime.SQLCache *)
